@@ -12,6 +12,7 @@ ITEMS = [
     Item('safe_process', BA.sym_safe_process, [], BA.B + 'datastream_processor.py::DataStreamProcessor.safe_process'),
     Item('process-results', BA.sym_process_results, [], BA.B + 'datastream_processor.py::DataStreamProcessor.process'),
     Item('_process', BA.sym__process, [], BA.B + 'datastream_processor.py::DataStreamProcessor._process'),
+    Item('DataStreamProcessor.defaults', S.sym_dsp_base, [], BA.B + 'datastream_processor.py::DataStreamProcessor.process_resource'),
     Item('iterable_loader.row-stream', K16.sym_appenders, [], 'dataflows/helpers/iterable_loader.py::iterable_loader.process_resources'),
     Item('iterable_loader.errors', BA.sym_iterable_loader_errors, [], 'dataflows/helpers/iterable_loader.py::iterable_loader.handle_iterable'),
     Item('pipelines', None, [('fault-injection', BA.nat_fault_injection), ('no-commit-after-failure', BA.nat_commit_after_failure),
